@@ -737,13 +737,20 @@ def perF (a b : FV) : Per × Bool × Bool :=
   let bz := a.isZero && b.isZero
   if !a.isZero then (absQuot (b.sub a) a, false, bz) else (.neg1, true, bz)
 
+/-- the macro `ONE_IS_NAN(X, Y)` = `(isnan(X) != 0) != (isnan(Y) != 0)` (fix 27db4d9) -/
+def FV.isNan : FV → Bool
+  | .nan => true
+  | _ => false
+
+def oneIsNan (a b : FV) : Bool := a.isNan != b.isNan
+
 /-- the element test of the `DFNT_FLOAT` / `DFNT_DOUBLE` branches of `array_diff` on the whole value domain:
-    `-p`: `not_comparable && !both_zero` or `(float)per > err_rel`; otherwise `fabs(a - b) > err_limit` -/
+    `-p`: `not_comparable && !both_zero` or `(float)per > err_rel || ONE_IS_NAN`; otherwise `fabs(a - b) > err_limit || ONE_IS_NAN` -/
 def differsF (o : DiffOpts) (a b : FV) : Bool :=
   if o.pr8 ≠ 0 then
     let r := perF a b
-    if r.2.1 && !r.2.2 then true else perGt r.1 o.pr8
-  else ((a.sub b).abs).gt (.fin o.tl8)
+    if r.2.1 && !r.2.2 then true else perGt r.1 o.pr8 || oneIsNan a b
+  else ((a.sub b).abs).gt (.fin o.tl8) || oneIsNan a b
 
 /-- **the element test of `array_diff` with the special values**: the integer types have none -/
 def differsV (t : NT) (o : DiffOpts) (a b : FV) : Bool :=
